@@ -148,7 +148,7 @@ func readView(c *drv.Ctx, r index.IndexReader, writers int) (view []int, ok bool
 		return view, false
 	}
 	if cnt != exp {
-		c.Fail("torn-view:doccount", "DocCount %d but the same reader shows view %v (expects %d documents)", cnt, view, exp)
+		c.Fail("reader-doccount-not-atomic-with-snapshot", "DocCount %d but the same reader's documents and postings show view %v (expects %d documents)", cnt, view, exp)
 		return view, false
 	}
 	return view, true
@@ -595,6 +595,148 @@ func bodyPersistWindow(conf map[string]interface{}) func(c *drv.Ctx) {
 	}
 }
 
+// ---- two writers on the SAME document ids: whatever the interleaving, once both calls have returned
+// the index must equal one of the two serial orders (each call is one batch: all-or-nothing), and a
+// reader obtained in between must show the initial state or the state after some serial prefix.
+
+type sameIDCase struct {
+	name string
+	a, b lww.Batch
+}
+
+var sameIDInit = lww.Batch{{Kind: "I", ID: "x", V: 1}, {Kind: "I", ID: "y", V: 1}, {Kind: "S", ID: "seq", V: 0}}
+var sameIDIDs = []string{"x", "y", "zz"}
+
+func sameIDCases() []sameIDCase {
+	I := func(id string, v int) lww.Op { return lww.Op{Kind: "I", ID: id, V: v} }
+	D := func(id string) lww.Op { return lww.Op{Kind: "D", ID: id} }
+	return []sameIDCase{
+		{"delete||update", lww.Batch{D("x")}, lww.Batch{I("x", 2)}},
+		{"delete||delete", lww.Batch{D("x")}, lww.Batch{D("x")}},
+		{"update||update", lww.Batch{I("x", 2)}, lww.Batch{I("x", 3)}},
+		{"batch||batch", lww.Batch{I("x", 2), D("y")}, lww.Batch{D("x"), I("y", 3)}},
+	}
+}
+
+func bodySameID(engine string, cs sameIDCase) func(c *drv.Ctx) {
+	return func(c *drv.Ctx) {
+		var idx bleve.Index
+		vrt.Free(func() {
+			var err error
+			m := bleve.NewIndexMapping()
+			switch engine {
+			case "upsidedown":
+				idx, err = bleve.NewUsing("", m, "upside_down", "gtreap", nil)
+			case "upsidedown-boltdb":
+				idx, err = bleve.NewUsing(c.Dir+"/idx", m, "upside_down", "boltdb", map[string]interface{}{"initialMmapSize": 16 << 20})
+			default:
+				idx, err = bleve.NewUsing(c.Dir+"/idx", m, scorch.Name, scorch.Name, nil)
+			}
+			if err != nil {
+				panic(err)
+			}
+			if err := lww.ExecBatch(idx, sameIDInit); err != nil {
+				panic(err)
+			}
+		})
+		// single Index/Delete calls when the batch has one operation (the non-batch code paths), a
+		// Batch call otherwise
+		exec := func(b lww.Batch) error {
+			if len(b) == 1 && b[0].Kind == "I" {
+				return idx.Index(b[0].ID, lww.Body(b[0].V))
+			}
+			if len(b) == 1 && b[0].Kind == "D" {
+				return idx.Delete(b[0].ID)
+			}
+			return lww.ExecBatch(idx, b)
+		}
+		states := func() map[string]*lww.Model {
+			out := map[string]*lww.Model{}
+			for name, order := range map[string][]lww.Batch{"initial": {}, "a": {cs.a}, "b": {cs.b}, "a;b": {cs.a, cs.b}, "b;a": {cs.b, cs.a}} {
+				m := lww.New()
+				m.Apply(sameIDInit)
+				for _, b := range order {
+					m.Apply(b)
+				}
+				out[name] = m
+			}
+			return out
+		}()
+		var wg vrt.WaitGroup
+		done := make(chan int, 2)
+		for i, b := range []lww.Batch{cs.a, cs.b} {
+			i, b := i, b
+			wg.Add(1)
+			vrt.Go(func() {
+				defer wg.Done()
+				if err := exec(b); err != nil {
+					c.Fail("error:write", "writer %d: %v", i, err)
+				}
+				vrt.Send(done, i)
+			})
+		}
+		// a reader in between: some serial prefix
+		wg.Add(1)
+		vrt.Go(func() {
+			defer wg.Done()
+			vrt.Recv(done)
+			adv, _ := idx.Advanced()
+			r, err := adv.Reader()
+			if err != nil {
+				c.Fail("error:reader", "Reader: %v", err)
+				return
+			}
+			defer r.Close()
+			ok := ""
+			var why []string
+			countOnly := false
+			for _, name := range []string{"a", "b", "a;b", "b;a"} {
+				bad := states[name].CheckReader(r, sameIDIDs, nil)
+				if len(bad) == 0 {
+					ok = name
+					break
+				}
+				if len(bad) == 1 && strings.HasPrefix(bad[0], "DocCount=") {
+					// documents, postings and internal values are a serial prefix; only DocCount is off. That is
+					// the known "count from another moment" only if the count IS the count of another serial state
+					var got int
+					fmt.Sscanf(bad[0], "DocCount=%d", &got)
+					for _, st := range states {
+						if len(st.Docs) == got {
+							countOnly = true
+						}
+					}
+				}
+				why = append(why, name+": "+bad[0])
+			}
+			if ok == "" && countOnly {
+				c.Fail("reader-doccount-not-atomic-with-snapshot", "a reader's documents and postings show a serial prefix of the two calls but its DocCount belongs to another moment (%s)", strings.Join(why, " | "))
+			} else if ok == "" {
+				c.Fail("torn-view:same-id-writers", "a reader obtained after one of the two calls had returned shows no serial prefix of them (%s)", strings.Join(why, " | "))
+			}
+			c.Observe("mid=" + ok)
+		})
+		wg.Wait()
+		vrt.Free(func() {
+			ab := states["a;b"].Check(idx, sameIDIDs, nil)
+			ba := states["b;a"].Check(idx, sameIDIDs, nil)
+			switch {
+			case len(ab) == 0 && len(ba) == 0:
+				c.Observe("final=either")
+			case len(ab) == 0:
+				c.Observe("final=a;b")
+			case len(ba) == 0:
+				c.Observe("final=b;a")
+			default:
+				c.Fail("not-serializable:same-id-writers", "after both calls returned the index equals neither serial order: vs a;b: %s || vs b;a: %s", strings.Join(ab, "; "), strings.Join(ba, "; "))
+			}
+			if err := idx.Close(); err != nil {
+				c.Fail("error:close", "Close: %v", err)
+			}
+		})
+	}
+}
+
 var unsafe2 = map[string]interface{}{"unsafe_batch": true, "scorchPersisterOptions": map[string]interface{}{"NumPersisterWorkers": 2, "MaxSizeInMemoryMergePerWorker": 1}}
 var aggressive = map[string]interface{}{"scorchMergePlanOptions": bx.AggressiveMergePlan}
 var nomerge = map[string]interface{}{"scorchMergePlanOptions": bx.NoMergePlan}
@@ -603,7 +745,19 @@ var nomerge = map[string]interface{}{"scorchMergePlanOptions": bx.NoMergePlan}
 func Scenarios() []drv.Scenario {
 	d1 := []drv.Phase{{Bound: 1}}
 	d1r := []drv.Phase{{Bound: 1, Filter: "restricted"}}
-	return []drv.Scenario{
+	var same []drv.Scenario
+	for _, eng := range []string{"upsidedown", "scorch", "upsidedown-boltdb"} {
+		for _, cs := range sameIDCases() {
+			sc := drv.Scenario{Name: "S10-same-id-writers:" + eng + ":" + cs.name, Doc: "two writers on the same ids, reader in between; final state must equal a serial order",
+				Body: bodySameID(eng, cs), Workers: 2, Class: eng,
+				Thorough: []drv.Phase{{Bound: 1}, {Bound: 2, Filter: "restricted"}}}
+			if eng != "upsidedown-boltdb" && (eng == "upsidedown" || cs.name == "delete||update" || cs.name == "batch||batch") {
+				sc.Quick = []drv.Phase{{Bound: 1}}
+			}
+			same = append(same, sc)
+		}
+	}
+	return append([]drv.Scenario{
 		{Name: "S1-two-writers-reader", Doc: "2 writers × 2 batches ∥ reader with a held index reader; scorch on disk, default options",
 			Body: body(cfg{engine: "scorch", writers: 2, batches: 2}), Quick: d1r,
 			Thorough: []drv.Phase{{Bound: 1}, {Bound: 2, Filter: "restricted"}}},
@@ -624,10 +778,10 @@ func Scenarios() []drv.Scenario {
 			Body: bodyPersistWindow(unsafe2), Quick: d1r, Thorough: []drv.Phase{{Bound: 1}, {Bound: 2, Filter: "restricted"}}},
 		{Name: "S9-delete-only-batch-lands-in-persist-window-legacy-flush", Doc: "the same with one persister worker (legacy one-shot in-memory merge + flush)",
 			Body: bodyPersistWindow(map[string]interface{}{"unsafe_batch": true}), Quick: d1r, Thorough: []drv.Phase{{Bound: 1}, {Bound: 2, Filter: "restricted"}}},
-		{Name: "S5-upsidedown-gtreap", Doc: "2 writers × 2 batches ∥ reader + searcher on upsidedown/gtreap",
+		{Name: "S5-upsidedown-gtreap", Class: "upsidedown", Doc: "2 writers × 2 batches ∥ reader + searcher on upsidedown/gtreap",
 			Body: body(cfg{engine: "upsidedown", writers: 2, batches: 2, searcher: true}), Quick: d1,
 			Thorough: []drv.Phase{{Bound: 2}}},
-	}
+	}, same...)
 }
 
 func Describe(r *mc.Run) {
